@@ -177,6 +177,16 @@ func checkTemplateValues(w *World, e *Exec, traces []*tTrace) {
 		if tr.Panics || tr.Failed != "" {
 			continue
 		}
+		// the element count handed to OpArray / OpMap by a literal is a non-negative int (VM.Run's case contracts for
+		// these opcodes assume it of compiled programs)
+		for i, it := range tr.Items {
+			if it.Kind == "emit" && (it.OpName == "OpArray" || it.OpName == "OpMap") && i > 0 && tr.Items[i-1].Kind == "emit" && tr.Items[i-1].OpName == "OpPush" && tr.Items[i-1].Const != nil {
+				c := tr.Items[i-1].Const
+				s2 := tr.St.Clone()
+				e.AddVC(traceName(tr, traceLabel(tr))+"/size-nonneg", "tmpl", "compiler."+tr.Method, s2, Not(And(Is("VInt", c), BVCmp("bvsge", VSel("int_of", c), BV64(0)))),
+					"the size operand of "+it.OpName+" is a non-negative int [emission path "+tr.Sig+"]")
+			}
+		}
 		hasLoop := false
 		for _, it := range tr.Items {
 			if it.Kind == "emit" && it.Operand == "back" || it.Kind == "rep" {
